@@ -57,6 +57,10 @@ CHECKS = {
    technique="TLA+ spec Coalescent.tla (event bookkeeping of the piecewise-constant coalescents - unstable sort stepped by PickNext, running lineage count, piece index, slicing - against the Kingman definition, exact rationals) model-checked with TLC over all inputs of a lattice and all tie orders; emitted cases replayed into the real distributions in several supplied orders; non-constant demographies against numerical quadrature over a transliterated interval table validated against TLC",
    text="TLC checks, for every tie order of the sort, that the code's bookkeeping yields the Kingman integral, log terms and per-piece sufficient statistics for constant / skyride / skygrid on 3-4 (thorough 5) taxa with tied and serial sampling times, all valid coalescent time vectors on the grid and grids before the first coalescence, beyond the root and on event times (50k states); emitted cases are evaluated by ConstantCoalescent, PiecewiseConstantCoalescent, PiecewiseConstantCoalescentGrid with node heights permuted, plus sufficient statistics; model equivalences, the scaling law, JSON model classes and batches on random inputs; ExponentialCoalescent, PiecewiseLinearCoalescentGrid and PiecewiseExponentialCoalescentGrid against mpmath quadrature of 1/N(t) for n up to 10 (thorough 50) taxa.",
    note="Soft (temperature) variants not judged; grid point exactly on a coalescent time: either side accepted; N(t) of the non-constant classes is read from their code/docstrings (piecewise exponential: N(0)=theta, growth per grid piece; piecewise linear: values at 0 and grid points, constant beyond)."),
+ "C20": dict(level="exploration", design="4/C20",
+   technique="TLA+ specs Gmrf.tla (first-difference form = quadratic form of the weighted tridiagonal precision matrix, exact rationals) and Coalescent.tla (per-piece sufficient statistics regroup the interval terms) model-checked with TLC; emitted cases replayed into GMRF(), precision_matrix(), sufficient_statistics(); integrated priors against numerical integration of the defining products",
+   text="TLC proves S(x) = x'Qx for every field of length 2..4 (thorough 5) over {-2..2} and every weight vector over {1,2,1/4} (50k states) and emits cases with exact S and Q; real GMRF densities (plain, weighted), the published precision matrix (entries and quadratic form), time-aware variants on random time trees with and without root-height rescaling, random fields up to length 50; GMRFGammaIntegrated (plain, weighted, batched) and ConstantCoalescentIntegrated vs mpmath quadrature; sufficient statistics and coalescent counts of both piecewise-constant coalescents vs the TLC-checked per-piece sums, single and batched.",
+   note="Level exploration: the TLA+ part is the algebraic identity and the regrouping; densities with log/lgamma leaves are numeric. GMRFCovariate only through the shared precision matrix."),
 }
 
 PENDING = {}
